@@ -156,6 +156,7 @@ def plan(ctx):
     items += [('twice', i, t) for i in range(16)]
     items += [('one-vs-all', i, t) for i in range(16)]
     items += [('reg-siblings', i, t) for i in range(16)]
+    items += [('hashseed', 0, t)]
     if not quick:
         items += [('focus3', i, t) for i in range(len(F))]
         items += [('sched3', 0, t)]
@@ -450,6 +451,55 @@ def _firstuse(res, name, fn, inputs, quick):
         total += execs
     res['extra'].setdefault('first_use_mutators', {})['%s.%s %s' % (name, fn, ','.join(changed))] = total
     return total, total
+
+
+def _hashseed_events():
+    """Calls that return containers (their order must not depend on the interpreter's string hashing): every public
+    one-argument function that returns a list / dict / tuple on a documented number, and the guessers on the bare
+    documented numbers of every EU VAT module."""
+    evs = [ev(mn, fn, v) for mn, fn, v in container_events()]
+    from . import c09
+    for cc, mn in sorted(c09.EU.items()):
+        for s_, v in seedmod.seeds('stdnum.' + mn, 2):
+            bare = v[2:] if v.upper().startswith(cc) else v
+            evs.append(ev('eu.vat', 'guess_country', bare))
+    for name, m in core.modules().items():
+        for fn in sorted(vars(m)):
+            if fn.startswith('guess_') and inspect.isfunction(getattr(m, fn)) and name != 'stdnum.eu.vat':
+                for s_, v in seedmod.seeds(name, 4):
+                    evs.append((name, fn, (v,), ()))
+    return list(dict.fromkeys(evs))
+
+
+def _hashseed(res, evs, menu=('0', '1', '2', '3')):
+    import json
+    import os
+    code = ('import sys, json, warnings; warnings.simplefilter("ignore"); sys.path.insert(0, %r); sys.path.insert(0, %r)\n'
+            'from vp import e4\nE = json.loads(sys.stdin.read())\n'
+            'out = []\n'
+            'for e in E:\n'
+            '    e4.purge()\n'
+            '    o, _ = e4.call((e[0], e[1], tuple(e[2]), tuple(tuple(x) for x in e[3])))\n'
+            '    out.append(repr(o))\n'
+            'print(json.dumps(out))\n') % (core.REPO, core.VERIF)
+    payload = json.dumps([[e[0], e[1], list(e[2]), [list(x) for x in e[3]]] for e in evs])
+    outs = {}
+    for hs in menu:
+        env = dict(os.environ, PYTHONHASHSEED=hs)
+        p = subprocess.run([sys.executable, '-X', 'utf8', '-c', code], input=payload, capture_output=True, text=True, timeout=900, env=env)
+        if p.returncode != 0 or not p.stdout.strip():
+            raise RuntimeError('hash seed harness failed: ' + p.stderr[-300:])
+        outs[hs] = json.loads(p.stdout)
+    nt = 0
+    for i, e in enumerate(evs):
+        got = {hs: outs[hs][i] for hs in menu}
+        if len(set(got.values())) > 1:
+            nt += 1
+            res.viol(ID, 'hash-seed-changes-result', e[0], e[1], {'kind': 'hashseed', 'events': [_enc_hist([('call', e)])[0]]},
+                     '%s.%s(%r) in fresh interpreters: %s' % (e[0], e[1], e[2][0], '; '.join('PYTHONHASHSEED=%s -> %s' % kv for kv in sorted(got.items()))),
+                     'the same answer in every fresh interpreter', excinfo='', devclass='hashseed', rank=[0, len(repr(e)), repr(e)])
+    res['extra']['hash_seeds'] = list(menu)
+    return len(evs) * len(menu), nt
 
 
 _battery_cache = []
@@ -867,6 +917,8 @@ def work(item):
                     # confirm as a two-step history on a fresh state (the battery itself is not the culprit)
                     check_history(res, [('call', first), ('call', e)], kind)
         res['extra']['battery_calls'] = len(battery)
+    elif kind == 'hashseed':
+        n, nt = _hashseed(res, _hashseed_events())
     elif kind == 'crosscheck':
         # pristine-by-purge vs a real fresh interpreter, for the focus events
         import json
@@ -912,6 +964,10 @@ def replay(case):
         r2 = work(('twice', j % 16, 'quick'))
         return [dict(v, sig=None) for v in r2['violations'] if v['case'].get('module') == case['module']][:1]
     events = [_dec_hist([e])[0][1] for e in case['events']]
+    if case['kind'] == 'hashseed':
+        r2 = Result()
+        _hashseed(r2, events)
+        return [dict(v, sig=None) for v in r2['violations'][:1]]
     if case['kind'] == 'firstuse':
         r2 = Result()
         _firstuse(r2, events[0][0], events[0][1], [events[0][2][0], events[1][2][0]], True)
